@@ -854,7 +854,97 @@ def make_cases(ctx, n):
     return cases
 
 
+def with_block_exceptions(ctx, n):
+    """directed family (implementation only, expectations from the text): a user leaves `with resource.request() as req:`
+    by an exception - its own, or the Interrupt(Preempted) of a PreemptiveResource - and handles it OUTSIDE the block.
+    The exception must reach the handler (the block is a context manager that releases, it does not swallow), the slot is
+    free again at once, and the next user in line gets it at that time."""
+    from usim.py import Environment
+    from usim.py.resources.resource import Resource, PreemptiveResource, PriorityResource
+    from usim.py.exceptions import Interrupt
+    rng = ctx.rng
+    for _ in range(n):
+        kind = rng.choice(['own', 'own-priority', 'preempted'])
+        d, t2 = rng.choice([1, 2, 4]), rng.choice([1, 2, 3])
+        case = {'with_block_exception': kind, 'holds_for': d, 'second_user_at': t2}
+        env = Environment()
+        log = []
+        if kind == 'preempted':
+            res = PreemptiveResource(env, capacity=1)
+
+            def first(env):
+                try:
+                    with res.request(priority=5) as req:
+                        yield req
+                        log.append(('first in', env.now))
+                        yield env.timeout(t2 + d + 5)
+                        log.append(('first finished', env.now))
+                except Interrupt as i:
+                    log.append(('first preempted', env.now, type(i.cause).__name__))
+                yield env.timeout(1)
+                log.append(('first after', env.now))
+
+            def second(env):
+                yield env.timeout(t2)
+                with res.request(priority=1) as req:
+                    yield req
+                    log.append(('second in', env.now))
+                    yield env.timeout(d)
+                log.append(('second out', env.now, res.count))
+            want = [('first in', 0), ('first preempted', t2, 'Preempted'), ('second in', t2)]
+            want += sorted([('first after', t2 + 1), ('second out', t2 + d, 0)], key=lambda x: (x[1], x[0] != 'first after'))
+        else:
+            res = Resource(env, capacity=1) if kind == 'own' else PriorityResource(env, capacity=1)
+
+            def first(env):
+                try:
+                    with res.request() as req:
+                        yield req
+                        log.append(('first in', env.now))
+                        yield env.timeout(d)
+                        raise KeyError('inside the block')
+                except KeyError:
+                    log.append(('first handled', env.now, res.count))
+                yield env.timeout(1)
+                log.append(('first after', env.now))
+
+            def second(env):
+                yield env.timeout(t2)
+                with res.request() as req:
+                    yield req
+                    log.append(('second in', env.now))
+                    yield env.timeout(1)
+                log.append(('second out', env.now, res.count))
+            t_in = max(t2, d)
+            # when the first user leaves at d: count is 0 if nobody queues yet (second arrives later), else the slot goes
+            # straight to the second user
+            cnt = 0 if t2 > d else None
+            want = None
+        env.process(first(env))
+        env.process(second(env))
+        try:
+            env.run()
+        except BaseException as e:   # noqa
+            ctx.fail(case, 'the run raised %r; logged %r' % (e, log), family='with-block-exceptions')
+            continue
+        ctx.count(case, nontrivial=True)
+        ctx.bump('family:with-block-exceptions')
+        if kind == 'preempted':
+            if sorted(log, key=repr) != sorted(want, key=repr):
+                ctx.fail(case, 'observed %r, expected (in some order within a time step) %r' % (log, want), family='with-block-exceptions')
+        else:
+            names = [x[0] for x in log]
+            handled = [x for x in log if x[0] == 'first handled']
+            sec_in = [x for x in log if x[0] == 'second in']
+            ok = handled and handled[0][1] == d and sec_in and sec_in[0][1] == t_in and \
+                ('first after', d + 1) in log and ('second out', t_in + 1, 0) in log and (cnt is None or handled[0][2] == cnt)
+            if not ok:
+                ctx.fail(case, 'observed %r: expected the KeyError handled outside the block at %r, the second user in at %r and '
+                               'out at %r with the resource free' % (log, d, t_in, t_in + 1), family='with-block-exceptions')
+
+
 def run(ctx):
+    with_block_exceptions(ctx, ctx.n(40, 600))
     run_batch(ctx, make_cases(ctx, ctx.n(300, 10000)))
 
 
